@@ -11,7 +11,7 @@ def cuts(q_builder, nsteps, tier):
 
 def build(tier):
     qs = []
-    ld_cfgs = [(3, 3, 3, 1), (3, 4, 4, 1)] if tier == "quick" else [(2, 3, 3, 1), (3, 3, 3, 1), (3, 4, 4, 1), (4, 3, 3, 1), (2, 4, 4, 2)]
+    ld_cfgs = [(3, 3, 3, 1), (3, 4, 4, 1), (4, 3, 3, 1)] if tier == "quick" else [(2, 3, 3, 1), (3, 3, 3, 1), (3, 4, 4, 1), (4, 3, 3, 1), (2, 4, 4, 2)]
     for cfg in ld_cfgs:
         k, r, n1, sd = cfg
         n = k + r
@@ -21,10 +21,23 @@ def build(tier):
         for pat in pats:
             e = ldpc_expect(k, r, n1, sd, pat)
             full = (1 << k) - 1
-            cls = "it" if e["pre_mask"] == full else ("ml" if e["ml_ok"] else ("partial" if e["pre_mask"] else "fail"))
+            unk = [c for c in range(n) if c not in e["closure"]]
+            live_rows = [row for row in e["rows"] if any(c in unk for c in row)]
+            if e["pre_mask"] == full:
+                cls = "it"
+            elif e["ml_ok"]:
+                cls = "ml"
+            elif len(live_rows) >= len(unk):
+                cls = "fail-in-gauss" + ("-partial" if e["pre_mask"] else "")      # enough equations, rank deficient: fails inside the elimination
+            else:
+                cls = "partial" if e["pre_mask"] else "fail"
             chosen.setdefault(cls, []).append(pat)
         for cls, lst in sorted(chosen.items()):
             take = lst[:: max(1, len(lst) // (1 if tier == "quick" else 5))][: (1 if tier == "quick" else 5)]
+            if cls.startswith("fail-in-gauss") and tier == "quick":
+                # prefer systems with more equations than unknowns, and two different shapes
+                byshape = sorted(lst, key=lambda p: (len(p), p))
+                take = [byshape[0], byshape[-1]] if len(byshape) > 1 else byshape
             for pi, pat in enumerate(take):
                 for api in ((0, 1) if tier == "thorough" else ((len(pat) + n1) % 2,)):
                     nsteps = 3 + (len(pat) if api == 0 else 1) + 1
@@ -52,7 +65,7 @@ def build(tier):
     meta = dict(
         units=["src/lib_common/of_openfec_api.c", "src/lib_stable/*/of_*_api.c", "it_decoding/of_it_decoding.c", "ml_decoding/*.c", "binary_matrix/of_matrix_{sparse,dense}.c", "galois_field_codes_utils/of_galois_field_code.c", "reed-solomon_gf_2_8/of_reed-solomon_gf_2_8.c"],
         functions_encoded=["of_release_codec_instance and the per-codec release functions", "every allocation site reached by the API cycle"],
-        bounds="CBMC --memory-leak-check plus free()-precondition checks (double free, free of non-heap) on the API cycle create -> set_fec_parameters -> set_callback_functions -> submissions -> of_finish_decoding, cut by of_release_codec_instance after every step (CUT = 0..last); the application then frees exactly what the API says it owns (decoded source symbols, its own buffers). LDPC %s with received sets of each class (peeling-complete, ML-complete, ML-failure, partial) chosen with the reference model, RS %s with 6 received sets; decoder-only instances and encoder+decoder instances that first build every repair symbol themselves; callbacks none/buffer/NULL/mix" % (ld_cfgs, [(CODEC_NAME[c], m, k, r) for c, m, k, r in rs]),
+        bounds="CBMC --memory-leak-check plus free()-precondition checks (double free, free of non-heap) on the API cycle create -> set_fec_parameters -> set_callback_functions -> submissions -> of_finish_decoding, cut by of_release_codec_instance after every step (CUT = 0..last); the application then frees exactly what the API says it owns (decoded source symbols, its own buffers). LDPC %s with received sets of each class (peeling-complete, ML-complete, failure before / inside the Gaussian elimination, partial) chosen with the reference model, RS %s with 6 received sets; decoder-only instances and encoder+decoder instances that first build every repair symbol themselves; callbacks none/buffer/NULL/mix" % (ld_cfgs, [(CODEC_NAME[c], m, k, r) for c, m, k, r in rs]),
         outside_bounds="histories other than the cut cycle (e.g. release between two finish calls); allocation failure paths; larger codes",
         stubs=[RS_STUB, RS28_TABLES], assumptions=STD_ASSUMPTIONS + ["CBMC's leak check reports an allocated-and-unreachable-at-exit object chosen nondeterministically; with concrete control flow any single leaked object is found"], exhaustive=False)
     return qs, meta
